@@ -166,6 +166,10 @@ class SessionManager:
         for network_interface in self.node.network_interfaces.values():
             if dst_ip_address in network_interface.ip_network and network_interface.enabled:
                 return network_interface
+        if dst_ip_address == getattr(self.node.config, "default_gateway", None):
+            # the default gateway itself is not reached through the default gateway (no enabled interface on its network:
+            # asking the ARP cache for it here would send an ARP request for it, which asks here again, for ever)
+            return None
         return self.software_manager.arp.get_default_gateway_network_interface()
 
     def resolve_outbound_transmission_details(
